@@ -33,6 +33,8 @@ pub fn quick_types() -> Vec<Ty> {
         Ty::union([Ty::Tup(vec![Ty::Int, Ty::Int]), Ty::Tup(vec![Ty::Int, Ty::Int, Ty::Int])]),
         Ty::arr(Ty::union([Ty::Int, Ty::Float])),
         Ty::func(vec![Ty::Int], Ty::Bool),
+        // same width as struct{a: int}, another field name
+        Ty::strukt(&[("b", Ty::Str)]),
     ]
 }
 
@@ -59,6 +61,7 @@ pub fn thorough_types() -> Vec<Ty> {
         Ty::arr(Ty::Float),
         t_iter(Ty::Float),
         Ty::strukt(&[("a", Ty::Int), ("b", Ty::Str)]),
+        Ty::strukt(&[("a", Ty::Int), ("c", Ty::Str)]),
     ]);
     v
 }
@@ -173,6 +176,9 @@ pub const RECIPES: &[Recipe] = &[
     r("struct{ a := 1 }", false, 0),
     r("struct{ a := 1, b := \"s\" }", false, 1),
     r("struct{ a := 1.5 }", false, 1),
+    r("struct{ b := \"s\" }", false, 0),
+    r("struct{ a := 1, c := \"x\" }", false, 2),
+    r("struct{ b := 1, z := 2.5 }", false, 2),
 ];
 
 pub struct Values {
